@@ -180,4 +180,70 @@ theorem derivePub_neuter (P : Prims Pt) (L : GroupLaws P) (is : List Nat) (his :
 /-- non-vacuity of the hypotheses: the `IL = 0` exclusion is about a single value of a 256-bit quantity -/
 example (P : Prims Pt) (nd : Node) (k i : Nat) (h : IL P nd k i = 5) : IL P nd k i ≠ 0 := by omega
 
+
+/-! ### The bulk entry point with every interval shape `range(*interval)` accepts -/
+
+private theorem mapM_none_of_mem {α β : Type} (f : α → Option β) (l : List α) (x : α) (hx : x ∈ l) (hf : f x = none) :
+    l.mapM f = none := by
+  induction l with
+  | nil => cases hx
+  | cons a t ih =>
+    simp only [List.mapM_cons]
+    rcases List.mem_cons.mp hx with rfl | ht
+    · rw [hf]; rfl
+    · cases f a with
+      | none => rfl
+      | some b => simp [ih ht]
+
+/-- **Bulk refusal.**  On a public node `generate_children` over ANY tuple `(a, b, step)` that contains a hardened index —
+ascending, descending, strided, crossing `2^31` in either direction — is refused as a whole; so is one that contains a
+negative index or has step 0. -/
+theorem generateChildrenStep_pub_refused (P : Prims Pt) (nd : Node) (a b step : Int) (hp : nd.isPrv = false)
+    (h : step = 0 ∨ ∃ i ∈ pyRange a b step, i < 0 ∨ (2 : Int) ^ 31 ≤ i) :
+    generateChildrenStep P nd a b step = none := by
+  unfold generateChildrenStep
+  by_cases hs : step = 0
+  · simp [hs]
+  · simp only [hs, ↓reduceIte]
+    rcases h with h0 | ⟨i, hi, hbad⟩
+    · exact absurd h0 hs
+    · apply mapM_none_of_mem _ _ i hi
+      by_cases hneg : i < 0
+      · simp [hneg]
+      · have h31 : (2 : Int) ^ 31 ≤ i := by rcases hbad with h1 | h1 <;> [exact absurd h1 hneg; exact h1]
+        simp only [hneg, ↓reduceIte]
+        unfold ckd
+        simp only [hp, Bool.false_eq_true, ↓reduceIte]
+        apply ckdPub_hardened
+        have : ((2 ^ 31 : Nat) : Int) ≤ i := by simpa using h31
+        omega
+
+/-- with step 1 and a non-negative start the general form is the two-element form the reports use -/
+theorem generateChildrenStep_one (P : Prims Pt) (nd : Node) (a b : Nat) :
+    generateChildrenStep P nd a b 1 = generateChildren P nd a b := by
+  unfold generateChildrenStep generateChildren pyRange
+  simp only [Int.one_ne_zero, ↓reduceIte, Int.zero_lt_one, Int.add_sub_cancel, Int.ediv_one, Int.one_mul]
+  have hl : (List.range (if (a : Int) < b then ((b : Int) - a).toNat else 0)).map (fun (j : Nat) => (a : Int) + Int.ofNat j) =
+      (List.range' a (b - a)).map (fun (i : Nat) => (i : Int)) := by
+    have hc : (if (a : Int) < b then ((b : Int) - a).toNat else 0) = b - a := by
+      split <;> omega
+    rw [hc, List.range'_eq_map_range, List.map_map]
+    apply List.map_congr_left
+    intro j _
+    simp [Int.ofNat_eq_natCast]
+  rw [hl]
+  generalize List.range' a (b - a) = l
+  induction l with
+  | nil => rfl
+  | cons x t ih =>
+    simp only [List.map_cons, List.mapM_cons]
+    have hx : ¬ ((x : Int) < 0) := by omega
+    simp only [hx, ↓reduceIte, Int.toNat_natCast]
+    cases ckd P nd x with
+    | none => rfl
+    | some c => simp only [Option.pure_def, Option.bind_eq_bind, Option.bind_some]; rw [ih]
+
+example : pyRange 5 0 (-2) = [5, 3, 1] := by decide
+example : pyRange (2 ^ 31 + 1) (2 ^ 31 - 3) (-1) = [2 ^ 31 + 1, 2 ^ 31, 2 ^ 31 - 1, 2 ^ 31 - 2] := by decide
+
 end BtcHd.C02
